@@ -239,7 +239,10 @@ func (target *TargetGeopackage) writeFeatures(features []processing.Feature) {
 			log.Fatalf("Could not create a binary geometry: %s", err)
 		}
 
-		data := f.Columns()
+		// not appending to the columns themselves: they are shared with the other targets (that write concurrently)
+		columns := f.Columns()
+		data := make([]interface{}, 0, len(columns)+1)
+		data = append(data, columns...)
 		data = append(data, sb)
 
 		_, err = stmt.Exec(data...)
